@@ -18,6 +18,7 @@ import (
 	"errors"
 	"fmt"
 	"log"
+	"math"
 	"reflect"
 	"strconv"
 	"strings"
@@ -426,6 +427,9 @@ func handleIncr(params internal.HandlerFuncParams) ([]byte, error) {
 			fmt.Printf("unexpected type for currentValue: %T\n", currentValue)
 			return nil, errors.New("unexpected type for currentValue") // Handle unexpected types
 		}
+		if currentValueInt == math.MaxInt64 {
+			return nil, errors.New("increment or decrement would overflow")
+		}
 		newValue = currentValueInt + 1 // Increment the value
 	}
 
@@ -472,6 +476,9 @@ func handleDecr(params internal.HandlerFuncParams) ([]byte, error) {
 		default:
 			fmt.Printf("unexpected type for currentValue: %T\n", currentValue)
 			return nil, errors.New("unexpected type for currentValue") // Handle unexpected types
+		}
+		if currentValueInt == math.MinInt64 {
+			return nil, errors.New("increment or decrement would overflow")
 		}
 		newValue = currentValueInt - 1 // Decrement the value
 	}
@@ -524,6 +531,11 @@ func handleIncrBy(params internal.HandlerFuncParams) ([]byte, error) {
 		default:
 			fmt.Printf("unexpected type for currentValue: %T\n", currentValue)
 			return nil, errors.New("unexpected type for currentValue") // Handle unexpected types
+		}
+		// The sum must stay within the int64 range (it used to wrap around silently).
+		if (incrValue > 0 && currentValueInt > math.MaxInt64-incrValue) ||
+			(incrValue < 0 && currentValueInt < math.MinInt64-incrValue) {
+			return nil, errors.New("increment or decrement would overflow")
 		}
 		newValue = currentValueInt + incrValue // Increment the value by the specified amount
 	}
@@ -617,7 +629,10 @@ func handleDecrBy(params internal.HandlerFuncParams) ([]byte, error) {
 
 	// Check if the key exists and its current value
 	if !ok || currentValue == nil {
-		// If key does not exist, initialize it with the decrement value
+		// If key does not exist, initialize it with the decrement value (the smallest int64 has no negation)
+		if decrValue == math.MinInt64 {
+			return nil, errors.New("increment or decrement would overflow")
+		}
 		newValue = decrValue * -1
 	} else {
 		// Use type switch to handle different types of currentValue
@@ -634,6 +649,11 @@ func handleDecrBy(params internal.HandlerFuncParams) ([]byte, error) {
 		default:
 			fmt.Printf("unexpected type for currentValue: %T\n", currentValue)
 			return nil, errors.New("unexpected type for currentValue") // Handle unexpected types
+		}
+		// The difference must stay within the int64 range (it used to wrap around silently).
+		if (decrValue > 0 && currentValueInt < math.MinInt64+decrValue) ||
+			(decrValue < 0 && currentValueInt > math.MaxInt64+decrValue) {
+			return nil, errors.New("increment or decrement would overflow")
 		}
 		newValue = currentValueInt - decrValue // decrement the value by the specified amount
 	}
